@@ -285,6 +285,22 @@ func monC13(c *Case, tr *Trace) []Violation {
 		}
 	}
 
+	// a client never emits a frame for a stream it has not announced with new_stream
+	if c.Raw == nil || c.Raw.Role != "client" {
+		announced := map[streamKey]bool{}
+		for _, f := range tr.Frames {
+			if f.F == nil || !f.F.ToServer || f.SendErr != "" {
+				continue
+			}
+			k := streamKey{f.Stream, f.F.ID}
+			if f.F.Kind == "new_stream" {
+				announced[k] = true
+			} else if !announced[k] {
+				add("frame_for_unannounced_stream", f.Step, "carrier %d: %s emitted for a stream id whose new_stream was never sent", f.Stream, f.F)
+				announced[k] = true
+			}
+		}
+	}
 	for _, k := range ix.keys {
 		if k.id == -1 {
 			continue
@@ -376,7 +392,9 @@ func monC13(c *Case, tr *Trace) []Violation {
 					add("close_repeated", f.Step, "carrier %d stream %d: close_stream sent %d times", k.carrier, k.id, closeN)
 				}
 				closeFrame = f
-				if down.inMsg && t.Code == 0 {
+				// (not for a nested tunnel's own carrier stream: there the "application" is the inner tunnel server, whose
+				// serving call legitimately returns while handler goroutines of the inner tunnel may still be inside a send)
+				if down.inMsg && t.Code == 0 && !isTunnelStream(frames) {
 					add("message_truncated", f.Step, "carrier %d stream %d: OK close while a response message was incomplete (%d/%d)", k.carrier, k.id, down.got, down.want)
 				}
 			case "window_update":
@@ -392,8 +410,8 @@ func monC13(c *Case, tr *Trace) []Violation {
 			stillOpen := false
 			if tagged {
 				for _, inv := range tr.Invocations {
-					if inv.RPC == rpc && inv.Returned < 0 {
-						stillOpen = true
+					if inv.RPC == rpc && (inv.Returned < 0 || inv.Returned >= endStep) {
+						stillOpen = true // its handler had not returned when the harness began to end the tunnels
 					}
 				}
 			}
@@ -633,14 +651,14 @@ func monC14(c *Case, tr *Trace) []Violation {
 		case "drain2", "idle":
 			// fully idle by wire evidence: every stream the server received has had its close emitted, every
 			// stream the client opened has seen its close or was cancelled, nothing is in flight, no op pending
-			idle := len(sn.PendingOps) == 0 && allInvocationsReturned(tr, sn.Step) && base != nil && sn.InFlight == 0
+			idle := len(sn.PendingOps) == 0 && allInvocationsReturned(tr, sn.Step) && base != nil && sn.InFlight == 0 && c.Reg == nil // (registry histories open tunnels as they go: no baseline)
 			nestedUp := 0
 			for _, t := range tr.Tunnels {
 				if t.Kind == "nested" && t.Opened && (t.DoneStep < 0 || t.DoneStep > sn.Step) {
 					nestedUp++
 				}
-				if t.Kind != "nested" && ((t.DoneStep >= 0 && t.DoneStep <= sn.Step) || (t.ServeReturned >= 0 && t.ServeReturned <= sn.Step)) {
-					idle = false // a tunnel already ended: the baseline does not apply
+				if (t.DoneStep >= 0 && t.DoneStep <= sn.Step) || (t.ServeReturned >= 0 && t.ServeReturned <= sn.Step) {
+					idle = false // a tunnel (outer or nested) already ended: the baseline does not apply
 				}
 			}
 			for k, e := range evs {
@@ -799,6 +817,15 @@ func monC08(c *Case, tr *Trace) []Violation {
 		}
 	}
 	return vs
+}
+
+func isTunnelStream(frames []*FrameRec) bool {
+	for _, f := range frames {
+		if f.F != nil && f.F.Kind == "new_stream" && strings.Contains(f.F.Method, "TunnelService/") {
+			return true
+		}
+	}
+	return false
 }
 
 func sortedKeys[M ~map[string]V, V any](m M) []string {
